@@ -10,7 +10,11 @@ package fsm_test
 // The task-only bookkeeping commands (claim, advance) are also sent for tasks that are already
 // terminal while a successor task is active: the store accepts them, so they belong to the
 // command language. Every transition is one real ApplyBatch. Requests are built from the rows
-// read back before the command (fresh) or with exactly one stale field.
+// read back before the command (fresh) or with exactly one stale field. A fence request names the
+// phase the executor would name and, from every fenced phase, also the pre-cutover fence phases of
+// the task's kind (a request that would put a cut-over task back where it can be aborted).
+// A second system (after-promotion) explores the same alphabet from the state right after the
+// accepted promotion of T2, which the first system reaches only at depth 6.
 //
 // Each explored instance owns one fresh hash slot (and the physical slot id hashSlot+1) of a
 // Pebble DB that it holds exclusively while it lives: rows of different instances never share
@@ -153,6 +157,8 @@ type c17Stats struct {
 	terminalTouchedWithSuccessor                                        [3]atomic.Int64
 	reviveOK, reviveRefusedActive                                       atomic.Int64
 	createRefusedActiveBesideTerminal, createOKBesideTouchedTerminal    atomic.Int64
+	// fence requests on a task whose cutover was accepted and that stands in a post-cutover phase
+	renewAfterCutoverOK, rewindAfterCutoverRefused atomic.Int64
 }
 
 // c17Space is the key namespace (one hash slot of one arena) shared by an instance and the
@@ -174,6 +180,7 @@ type c17Inst struct {
 	index uint64
 	v     c17View
 	cut   map[string]bool // task id -> its cutover (commit / promote) was accepted in this incarnation
+	back  map[string]string // task id -> command that moved the task out of a post-cutover phase after its cutover was accepted
 }
 
 var c17TaskIDs = []string{"T1", "T2", "T3"}
@@ -209,7 +216,7 @@ func c17NewTask(id string) metadb.ChannelMigrationTask {
 func c17New(st *c17Stats) mc.Instance {
 	a, hs := c17Alloc()
 	sp := &c17Space{arena: a, hs: hs, slot: uint64(hs) + 1}
-	in := &c17Inst{st: st, sp: sp, cut: map[string]bool{}}
+	in := &c17Inst{st: st, sp: sp, cut: map[string]bool{}, back: map[string]string{}}
 	sm, err := fsm.NewStateMachineWithHashSlots(a.db, sp.slot, []uint16{hs})
 	if err != nil {
 		panic(fmt.Sprintf("c17 harness: state machine: %v", err))
@@ -220,6 +227,31 @@ func c17New(st *c17Stats) mc.Instance {
 		panic(fmt.Sprintf("c17 harness: seeding runtime meta: %q %v", res, err))
 	}
 	in.v = in.read()
+	return in
+}
+
+// c17Promoted is the shortest history of the alphabet that ends with the accepted promotion of
+// the replica replace T2 (6 commands); the second system explores every continuation of it.
+var c17Promoted = []string{"create:T2", "addlearner:T2", "adv:T2:fresh", "setfence:T2", "adv:T2:fresh", "promote:T2:fresh"}
+
+// c17NewAt builds a fresh instance and runs the given history on it (through Apply, oracles included).
+func c17NewAt(st *c17Stats, history []string) mc.Instance {
+	in := c17New(st).(*c17Inst)
+	for _, e := range history {
+		enabled := false
+		for _, x := range in.Events() {
+			enabled = enabled || x == e
+		}
+		if !enabled {
+			panic(fmt.Sprintf("c17 harness: start history %v: %s is not enabled", history, e))
+		}
+		if _, err := in.Apply(e, nil); err != nil {
+			panic(fmt.Sprintf("c17 harness: start history %v: %s: %v", history, e, err))
+		}
+		if err := in.Check(); err != nil {
+			panic(fmt.Sprintf("c17 harness: start history %v: after %s: %v", history, e, err))
+		}
+	}
 	return in
 }
 
@@ -250,9 +282,12 @@ func (in *c17Inst) Clone() mc.Instance {
 		}
 		sp.dirty = false
 	}
-	c := &c17Inst{st: in.st, sp: sp, clone: true, index: in.index, v: in.v, cut: map[string]bool{}}
+	c := &c17Inst{st: in.st, sp: sp, clone: true, index: in.index, v: in.v, cut: map[string]bool{}, back: map[string]string{}}
 	for k, b := range in.cut {
 		c.cut[k] = b
+	}
+	for k, b := range in.back {
+		c.back[k] = b
 	}
 	return c
 }
@@ -310,8 +345,9 @@ func (in *c17Inst) Canon() string {
 		Active string
 		Listed []string
 		Cut    []string
+		Back   map[string]string `json:",omitempty"`
 	}
-	c := canon{Tasks: in.v.Tasks, Meta: in.v.Meta, Active: in.v.Active, Listed: in.v.Listed}
+	c := canon{Tasks: in.v.Tasks, Meta: in.v.Meta, Active: in.v.Active, Listed: in.v.Listed, Back: in.back}
 	for id, b := range in.cut {
 		if b {
 			c.Cut = append(c.Cut, id)
@@ -390,6 +426,18 @@ func (in *c17Inst) Events() []string {
 			evs = append(evs, "addlearner:T2", "promote:T2:fresh")
 		}
 		evs = append(evs, "abort:"+id)
+		// A fence request names the phase the task continues in. Besides the executor's choice
+		// (plain setfence: first fence of the task, or a renewal in the current phase) the request
+		// is sent naming the first fenced phase and the cutover phase of the task's kind, from every
+		// fenced phase the task is in - in particular from the post-cutover phases, where an accepted
+		// request would put a committed / promoted task back into a phase that can be aborted.
+		if c17FencedPhase(t) {
+			for _, ft := range c17FenceTargets(id) {
+				if ft.phase != t.Phase {
+					evs = append(evs, "setfence:"+id+":to-"+ft.name)
+				}
+			}
+		}
 		if c17ProofPhase(t) && (t.IsActive() || touch) {
 			for _, f := range c17StaleFields {
 				evs = append(evs, "adv:"+id+":stale-"+f)
@@ -410,6 +458,51 @@ func (in *c17Inst) Events() []string {
 		evs = append(evs, "meta:leader-epoch+1")
 	}
 	return evs
+}
+
+type c17FenceTarget struct {
+	name  string
+	phase metadb.ChannelMigrationPhase
+}
+
+// c17FenceTargets lists the pre-cutover phases of the task's kind in which the harness's tasks hold
+// a fence (both are phases AbortChannelMigration accepts): the first fenced phase and the cutover phase.
+func c17FenceTargets(id string) []c17FenceTarget {
+	if c17LT(id) {
+		return []c17FenceTarget{{"drain", metadb.ChannelMigrationPhaseDrainLeader}, {"commitmeta", metadb.ChannelMigrationPhaseCommitLeaderMeta}}
+	}
+	return []c17FenceTarget{{"cutoverfence", metadb.ChannelMigrationPhaseCutoverFence}, {"promote", metadb.ChannelMigrationPhasePromoteAndRemove}}
+}
+
+// c17FencedPhase: the task stands in one of the phases reached through a fence request (the
+// pre-cutover fence targets and the post-cutover phases).
+func c17FencedPhase(t metadb.ChannelMigrationTask) bool {
+	for _, ft := range c17FenceTargets(t.TaskID) {
+		if t.Phase == ft.phase {
+			return true
+		}
+	}
+	return c17PostCutoverPhase(t.Phase)
+}
+
+// c17DefaultFencePhase is the phase the executor's fence request names: the first fenced phase
+// when the task stands right before it, otherwise the current phase (a renewal).
+func c17DefaultFencePhase(t metadb.ChannelMigrationTask) metadb.ChannelMigrationPhase {
+	phase := t.Phase
+	if c17LT(t.TaskID) && t.Phase == metadb.ChannelMigrationPhaseWriteFence {
+		phase = metadb.ChannelMigrationPhaseDrainLeader
+	}
+	if t.TaskID == "T2" && t.Phase == metadb.ChannelMigrationPhaseWarmCatchUp {
+		phase = metadb.ChannelMigrationPhaseCutoverFence
+	}
+	if phase == 0 {
+		phase = metadb.ChannelMigrationPhaseDrainLeader
+	}
+	return phase
+}
+
+func c17PostCutoverPhase(p metadb.ChannelMigrationPhase) bool {
+	return p == metadb.ChannelMigrationPhaseVerifyNewLeader || p == metadb.ChannelMigrationPhaseVerifyMembership || p == metadb.ChannelMigrationPhaseClearFence
 }
 
 // c17NextPhase is the phase an executor advance moves to from t.Phase (task-only advances).
@@ -564,15 +657,11 @@ func (in *c17Inst) encode(evl string) (data []byte, id, op, variant string) {
 		}
 		data = fsm.EncodeAdvanceChannelMigrationTaskCommand(adv)
 	case "setfence":
-		phase := t.Phase
-		if c17LT(id) && t.Phase == metadb.ChannelMigrationPhaseWriteFence {
-			phase = metadb.ChannelMigrationPhaseDrainLeader
-		}
-		if id == "T2" && t.Phase == metadb.ChannelMigrationPhaseWarmCatchUp {
-			phase = metadb.ChannelMigrationPhaseCutoverFence
-		}
-		if phase == 0 {
-			phase = metadb.ChannelMigrationPhaseDrainLeader
+		phase := c17DefaultFencePhase(t)
+		for _, ft := range c17FenceTargets(id) {
+			if variant == "to-"+ft.name {
+				phase = ft.phase
+			}
 		}
 		data = fsm.EncodeSetChannelWriteFenceCommand(metadb.ChannelMigrationFenceRequest{Guard: g, RuntimeGuard: c17RuntimeGuard(m, ""), Status: run, Phase: phase, FenceReason: 1, FenceUntilMS: c17FenceUntil, UpdatedAtMS: up})
 	case "resetfence":
@@ -724,9 +813,11 @@ func (in *c17Inst) Apply(evl string, _ *mc.Env) (string, error) {
 		aborted := postHas && postT.Status == metadb.ChannelMigrationStatusAborted && (!preHad || preT.Status != metadb.ChannelMigrationStatusAborted)
 		if aborted {
 			if in.cut[id] {
-				where := "task-back-in-pre-cutover-phase"
-				switch preT.Phase {
-				case metadb.ChannelMigrationPhaseVerifyNewLeader, metadb.ChannelMigrationPhaseVerifyMembership, metadb.ChannelMigrationPhaseClearFence:
+				where := "task-back-in-pre-cutover-phase" // (put back by a fence reset)
+				if by := in.back[id]; by != "" && by != "resetfence" {
+					where = "task-rewound-by-" + by // the command that moved the cut-over task back to a pre-cutover phase
+				}
+				if c17PostCutoverPhase(preT.Phase) {
 					where = "in-post-cutover-phase"
 				}
 				return obs, mc.Violatef("C17:abort-after-cutover:"+where, "%s aborted task %s (phase %d at the abort) after its cutover was committed", evl, id, preT.Phase)
@@ -739,6 +830,21 @@ func (in *c17Inst) Apply(evl string, _ *mc.Env) (string, error) {
 			if in.cut[id] {
 				in.st.abortAfterCutoverRefused.Add(1)
 			}
+		}
+	}
+
+	// which command moved a task whose cutover was accepted out of the post-cutover phases (names the
+	// defect in the fingerprint of the abort that follows; the move itself is not what the property forbids)
+	if op != "abort" && in.cut[id] && preHad && postHas && c17PostCutoverPhase(preT.Phase) && !c17PostCutoverPhase(postT.Phase) {
+		in.back[id] = op
+	}
+	if op == "setfence" && preHad {
+		accepted := changed && post.Meta.WriteFenceToken == id && post.Meta.WriteFenceVersion > pre.Meta.WriteFenceVersion
+		switch {
+		case variant == "" && in.cut[id] && preT.IsActive() && c17PostCutoverPhase(preT.Phase) && accepted:
+			in.st.renewAfterCutoverOK.Add(1)
+		case variant != "" && in.cut[id] && preT.IsActive() && c17PostCutoverPhase(preT.Phase) && pre.Meta.WriteFenceToken == id && !changed:
+			in.st.rewindAfterCutoverRefused.Add(1)
 		}
 	}
 
@@ -814,6 +920,7 @@ func (in *c17Inst) Apply(evl string, _ *mc.Env) (string, error) {
 	for _, t := range c17TaskIDs {
 		if _, ok := post.Tasks[t]; !ok {
 			delete(in.cut, t)
+			delete(in.back, t)
 		}
 	}
 	return obs, nil
@@ -923,6 +1030,24 @@ func TestVerifC17(t *testing.T) {
 			"third_task_id": "T3 is created (plain create only) only while the row T1 exists (same transfer under a fresh id); once it exists it has the full alphabet of T1", "seed_meta": "epoch 1/1, replicas=ISR={1,2,3}, leader 1, MinISR 2"},
 		Note: "merging on all task rows + runtime meta row + GetActive and ListActive answers (read back through the metadb API) + cutover bookkeeping; requests are rebuilt from the rows read back, so the canonical state determines every future request",
 	})
+	// Second system: every continuation of the accepted promotion of T2. The promotion is 6 commands
+	// deep, so the first system sees only what one more command does to a promoted task; here the
+	// promoted state is the root and the whole alphabet is explored from it.
+	st2 := &c17Stats{}
+	start := c17NewAt(&c17Stats{}, c17Promoted).(*c17Inst)
+	t2 := start.v.Tasks["T2"]
+	startOK := start.cut["T2"] && t2.IsActive() && t2.Phase == metadb.ChannelMigrationPhaseVerifyMembership && start.v.Meta.WriteFenceToken == "T2" &&
+		c17Set(start.v.Meta.Replicas) == c17Set([]uint64{1, 2, 4}) && c17Set(start.v.Meta.ISR) == c17Set([]uint64{1, 2, 4})
+	start.Close()
+	r.Guard("after-promotion-root-is-the-promoted-state", startOK, "history %v must end with T2 promoted (VerifyMembership, fence held, replicas = ISR = {1,2,4})", c17Promoted)
+	res2 := mc.Run(r, mc.System{
+		Name:      "after-promotion",
+		New:       func() mc.Instance { return c17NewAt(st2, c17Promoted) },
+		MaxDepth:  ev.Pick(r, 3, 4),
+		MaxStates: ev.Pick(r, int64(50000), int64(500000)),
+		Bounds: map[string]any{"root": strings.Join(c17Promoted, " ; "), "alphabet": "as in migration-commands (all three task ids)"},
+		Note:   "same instance, alphabet, oracles and merging as migration-commands; the root is the state after the accepted promotion of T2",
+	})
 	if r.Replay() != nil {
 		return
 	}
@@ -942,6 +1067,8 @@ func TestVerifC17(t *testing.T) {
 	g("fence-set", st.fenceSet.Load(), 1)
 	g("fence-cleared", st.fenceCleared.Load(), 1)
 	g("fence-reset", st.fenceReset.Load(), 1)
+	g("fence-renewal-accepted-in-post-cutover-phase", st.renewAfterCutoverOK.Load(), 1)
+	g("fence-request-naming-a-pre-cutover-phase-refused-in-post-cutover-phase", st.rewindAfterCutoverRefused.Load(), 4)
 	g("gc-deleted-task", st.gcDeleted.Load(), 1)
 	g("claim-accepted-on-terminal-task-while-successor-active", st.terminalTouchedWithSuccessor[0].Load(), 1)
 	g("advance-accepted-on-terminal-task-while-successor-active", st.terminalTouchedWithSuccessor[1].Load(), 1)
@@ -955,6 +1082,11 @@ func TestVerifC17(t *testing.T) {
 	g("revive-of-terminal-task-refused-while-successor-active", st.reviveRefusedActive.Load(), 1)
 	g("learner-added", st.learnerAdded.Load(), 1)
 	r.Guard("state-space-nontrivial", res.States >= 300, "states=%d", res.States)
+	g("after-promotion: abort-refused-after-cutover", st2.abortAfterCutoverRefused.Load(), 1)
+	g("after-promotion: fence-renewal-accepted-in-post-cutover-phase", st2.renewAfterCutoverOK.Load(), 1)
+	g("after-promotion: fence-request-naming-a-pre-cutover-phase-refused-in-post-cutover-phase", st2.rewindAfterCutoverRefused.Load(), 4)
+	g("after-promotion: fence-cleared", st2.fenceCleared.Load(), 1)
+	r.Guard("after-promotion: state-space-nontrivial", res2.States >= 30, "states=%d", res2.States)
 	r.Assume("\"aborted\" means an accepted AbortChannelMigration command; an Advance that marks a task Failed is the executor's failure path and is part of the alphabet (fail:<task>), an Advance to Aborted is not generated")
 	r.Assume("a commit/promote whose RuntimeGuard does not describe the current meta must not cut over (the guard carries the fence version the proof is compared with)")
 	r.Assume("fence lease times are fixed (until=5000, commit/promote at now=1000, reset at now=6000); lease expiry at cutover time is not varied")
